@@ -7,12 +7,14 @@ SEED="$1"
 WT="/tmp/confirm-$$"
 git -C /repo worktree add -q "$WT" HEAD || exit 2
 cd "$WT" || exit 2
+mkdir -p "$WT/SEEDCONF" && cp -r "$SEED"/. "$WT/SEEDCONF/"
+SEEDRUN="$WT/SEEDCONF"
 echo "== demo WITHOUT patch"
-( cd "$WT" && PYTHONPATH="$WT" timeout 600 /venv/bin/python "$SEED/demo.py" >/tmp/confirm-$$.out 2>&1 ); A=$?
+( cd "$WT" && PYTHONPATH="$WT" timeout 600 /venv/bin/python "$SEEDRUN/demo.py" >/tmp/confirm-$$.out 2>&1 ); A=$?
 tail -3 /tmp/confirm-$$.out; echo "exit=$A"
-git apply "$SEED/patch.diff" || { echo "PATCH DOES NOT APPLY"; cd /; git -C /repo worktree remove --force "$WT"; exit 3; }
+git apply "$SEEDRUN/patch.diff" || { echo "PATCH DOES NOT APPLY"; cd /; git -C /repo worktree remove --force "$WT"; exit 3; }
 echo "== demo WITH patch"
-( cd "$WT" && PYTHONPATH="$WT" timeout 600 /venv/bin/python "$SEED/demo.py" >/tmp/confirm-$$.out 2>&1 ); B=$?
+( cd "$WT" && PYTHONPATH="$WT" timeout 600 /venv/bin/python "$SEEDRUN/demo.py" >/tmp/confirm-$$.out 2>&1 ); B=$?
 tail -3 /tmp/confirm-$$.out; echo "exit=$B"
 echo "== repository suite WITH patch"
 python3 /verif/tools/baseline_check.py "$WT"; C=$?
